@@ -761,7 +761,7 @@ def handle_end_progs(state: TokenizerState) -> Iterator[TokenInfo]:
     if state.in_braces() or (not state.end_progs):  # in case the state changed above
         return
 
-    if state.in_colon() and state.end_progs[-1].quote in state.line[state.pos :]:
+    if state.in_colon() and state.can_close(state.end_progs[-1].quote):  # (an escaped quote closes nothing)
         # the closing quote comes before the brace that would end the format spec
         raise TokenError("f-string: expecting '}'", (state.lnum, state.pos))
     if (state.in_multi_line_string()) or (state.in_continued_string()):
